@@ -912,7 +912,8 @@ def handleEnd (ds : DS) (j : Json) : IO DS := do
           let tp := if p.kind == "certifierUpdate" then pre.g.params.certStake else pre.g.params.default
           -- a shield claim is decided by the certified identities: the quorum is taken of their bonded stake
           -- (x/gov/keeper/proposal.go TotalBondedByCertifiedIdentities: per identity certificate, per delegation to a bonded validator)
-          let identities := (ds.cert.certs.filter (·.kind == "identity")).map (·.content)
+          -- "counted over certified identities' stake": an identity's stake counts once, however many certificates name it
+          let identities := ((ds.cert.certs.filter (·.kind == "identity")).map (·.content)).eraseDups
           let claimDenominator : Int := identities.foldl (fun acc a => (preStake.dels.filter (·.1 == a)).foldl (fun acc2 d =>
               match preStake.vals.find? (·.1 == d.2.1) with
               | some vi => if vi.2.2.raw == 0 then acc2 else acc2 + Dec.truncateInt (Dec.mulInt (Dec.quo d.2.2 vi.2.2) vi.2.1)
@@ -946,7 +947,11 @@ def handleEnd (ds : DS) (j : Json) : IO DS := do
           else ds := stat ds "sit.c12.rule_too_close_to_call"
         if p.status == 2 && q.status != 2 then
           ds := stat ds s!"sit.c12.certifier_round_ended.{q.status}"
-          let (pass, decisive) := GovD.specSecurityRule pre.c.certifiers.length votes pre.g.params.security
+          -- "a one-certifier-one-vote round that only certifiers can vote in": the votes that count are those of the
+          -- certifiers in office when the round is tallied (a vote cast by somebody removed from the council since does not)
+          let certVotes := votes.filter (fun v => Cert.isCertifier pre.c v.voter)
+          if certVotes.length != votes.length then ds := stat ds "sit.c12.vote_of_a_former_certifier_at_tally"
+          let (pass, decisive) := GovD.specSecurityRule pre.c.certifiers.length certVotes pre.g.params.security
           -- the head count is taken when the proposal is tallied: decisive only if the council did not change in this block
           -- (its members, not just their number: one proposal may remove a certifier and the next one add another)
           let members (c : Cert.State) : List Addr := (c.certifiers.map (·.addr)).mergeSort (fun a b => a ≤ b)
